@@ -11,6 +11,7 @@ package openflow13
 import (
 	"encoding/binary"
 	"errors"
+	"fmt"
 	"net"
 
 	"github.com/contiv/libOpenflow/common"
@@ -99,6 +100,17 @@ const (
 )
 
 func Parse(b []byte) (message util.Message, err error) {
+	// Frames come from the network: a decoder that runs off a truncated or
+	// inconsistent frame must yield an error, not take the process down.
+	defer func() {
+		if r := recover(); r != nil {
+			message = nil
+			err = fmt.Errorf("malformed OpenFlow message: %v", r)
+		}
+	}()
+	if len(b) < 8 {
+		return nil, errors.New("The []byte is too short to hold an OpenFlow header.")
+	}
 	switch b[1] {
 	case Type_Hello:
 		message = new(common.Hello)
